@@ -229,8 +229,11 @@ def run(tier, seed, replay):
         s = gen_samples(rng, n)
         order = int(rng.integers(0, 6))
         bc = None
-        if order >= 2 and n > order and rng.random() < 0.4:
-            bc = str(rng.choice(["natural", "clamped", "not-a-knot"])) if order == 3 else None
+        if order >= 2 and n > order and rng.random() < 0.5:
+            bc = str(rng.choice(["natural", "clamped", "not-a-knot", "periodic"])) if order == 3 else ("periodic" if rng.random() < 0.5 else None)
+            if bc == "periodic":
+                s = np.array(s, dtype=complex)
+                s[-1] = s[0]
         try:
             with core.time_limit(60):
                 c = qutip.coefficient(s, tlist=t, order=order, boundary_conditions=bc)
@@ -238,6 +241,8 @@ def run(tier, seed, replay):
             raise
         except Exception as e:
             rep.count("construct-error:" + type(e).__name__)
+            v(f"construct-raises:order{order}:{bc}", f"coefficient(samples, tlist=, order={order}, boundary_conditions={bc!r}) on a {kind} grid of {n} points raises {type(e).__name__}: {e}"[:240],
+              {"tlist": t.tolist(), "samples": [str(x) for x in s], "order": order, "boundary_conditions": bc})
             continue
         eff_order = min(order, n - 1)
         rep.case({"kind": kind, "n": n, "order": order, "scale_exp": int(np.floor(np.log10(scale)))}, n >= 3)
@@ -326,7 +331,9 @@ def run(tier, seed, replay):
         if before != after:
             v(f"aliases-input:order{eff_order}", f"an order {eff_order} coefficient built from arrays changes when the caller's arrays are modified afterwards", dict(data))
         # sum with another coefficient on the same grid and on a shifted grid
-        s2 = gen_samples(rng, n)
+        s2 = np.array(gen_samples(rng, n), dtype=complex)
+        if bc == "periodic":
+            s2[-1] = s2[0]
         cb = qutip.coefficient(s2, tlist=t, order=order, boundary_conditions=bc)
         csum = c + cb
         for q, got in zip(qs[:: max(1, len(qs) // 12)], vals[:: max(1, len(qs) // 12)]):
